@@ -276,11 +276,15 @@ void    finish_rule (int mach, bool variable_trail_rule, int headcnt, int trailc
 
 	/* Okay, in the action code at this point yytext and yyleng have
 	 * their proper final values for this rule, so here's the point
-	 * to do any user action.  But don't do it for continued actions,
-	 * as that'll result in multiple rule-setup calls.
+	 * to do any user action.  A continued ('|') action must not do it,
+	 * as that would result in multiple rule-setup calls; but whether
+	 * this rule's action is '|' is not reliably known here (the parser
+	 * reduces "r$" before the scanner has looked at the action, other
+	 * rules after), so the scanner takes the set-up out again when the
+	 * action turns out to be '|'.
 	 */
-	if (!continued_action)
-		add_action ("M4_HOOK_SET_RULE_SETUP\n");
+	rule_setup_index = action_index;
+	add_action ("M4_HOOK_SET_RULE_SETUP\n");
 
 	line_directive_out(NULL, infilename, linenum);
         add_action("[[");
